@@ -4,6 +4,7 @@ package main
 
 import (
 	"math"
+	"strconv"
 	"strings"
 
 	"verif/proto"
@@ -273,4 +274,17 @@ func (g *wgen) run(seed uint64, proc, idx int) proto.RunRec {
 	return rec
 }
 
-func listKey(l []string) string { return strings.Join(l, "\x00") + "\x01" }
+// listKey is an injective encoding of a list (length-prefixed elements): two different
+// lists must never share a backing array. (A plain strings.Join key was ambiguous for
+// elements containing the separator - the very defect seeded change S18 plants in the
+// library; it produced a false alarm on the unchanged tree once the key-ambiguity
+// families were in the corpus.)
+func listKey(l []string) string {
+	var b strings.Builder
+	for _, s := range l {
+		b.WriteString(strconv.Itoa(len(s)))
+		b.WriteByte(':')
+		b.WriteString(s)
+	}
+	return b.String()
+}
